@@ -6,6 +6,11 @@ HERE = os.path.dirname(os.path.dirname(os.path.abspath(__file__)))
 ALL = ["C%02d" % i for i in range(1, 21)]
 
 CHECKS = {
+ "C01": dict(
+  text="Lean theorem match_is_first_match (unbounded: all rule lists, fallbacks, packets): the Match loop over the match-set array emitted by the builder's lowering returns exactly the first rule whose &&-joined, possibly negated, OR-of-values conditions hold, with must_rules sticky and fallback; per-condition meaning theorems (CIDR containment incl. IPv4-mapped via C12, inclusive port ranges, l4proto/ipversion masks incl. unknown literals, negated MAC never matches zero MAC, pname on 16 bytes only when known, DSCP, domain bit). Tied to /repo by differential runs through the real config parser, config.New (must_ patch), optimizers, builder, Route/Match on packets generated from each rule's boundary values.",
+  note="Trusted: Lean kernel + standard axioms; domain key-group truth is an oracle supplied by a reference matcher (meaning of domain patterns = C11); match-set position bookkeeping and text->typed-value parsing are tied, not proved; generator's typed program is the meaning of the rendered text.",
+  technique="Lean 4 proof (refinement: scan over lowered rules = first-match spec) + differential correspondence (go test -overlay)",
+  design="§5 C01"),
  "C12": dict(
   text="Lean theorems (unbounded): Prefix2bin128's bit string is a prefix of the probe's iff the prefix numerically contains the address, for all lengths 0..128 and IPv4-as-mapped; userspace trie query and kernel LPM keys describe the same set; canonicalisation keeps the set; an LPM slot is shared only by identical canonical lists for ANY hash function. Tied to /repo by a differential harness over the real Prefix2bin128/Trie/cidrToBpfLpmKey/canonicalizePrefixes/addIp.",
   note="Trusted: Lean kernel + propext/Classical.choice/Quot.sound; kernel LPM-trie lookup contract; harness generators; pkg/trie internals tied at API level only (C11 covers them).",
